@@ -167,6 +167,100 @@ theorem resolveTrans_wf (m : ModelDef) (t : Transn) (r : RTrans) (hn : 0 < m.sta
       | ok d => simp [ho, hd] at h; subst h; exact ⟨key _ _ ho, key _ _ hd⟩
   · simp at h; subst h; exact ⟨hn, hn⟩
 
+/-- `mapM` over `Except` succeeds exactly with element-wise successes -/
+theorem mapM_ok {α β ε : Type} (f : α → Except ε β) (l : List α) (r : List β) (h : l.mapM f = .ok r) :
+    List.Forall₂ (fun a b => f a = .ok b) l r := by
+  induction l generalizing r with
+  | nil => simp [pure, Except.pure] at h; subst h; exact List.Forall₂.nil
+  | cons a l ih =>
+    rw [List.mapM_cons] at h
+    cases ha : f a with
+    | error e => simp [ha, bind, Except.bind] at h
+    | ok b =>
+      cases hl : l.mapM f with
+      | error e => simp [ha, hl, bind, Except.bind] at h
+      | ok bs =>
+        simp [ha, hl, bind, Except.bind, pure, Except.pure] at h
+        subst h
+        exact List.Forall₂.cons ha (ih bs hl)
+
+theorem forall2_mem_right {α β : Type} {R : α → β → Prop} {l : List α} {r : List β}
+    (h : List.Forall₂ R l r) {b : β} (hb : b ∈ r) : ∃ a ∈ l, R a b := by
+  induction h with
+  | nil => simp at hb
+  | cons hab _ ih =>
+    rcases List.mem_cons.mp hb with rfl | hb'
+    · exact ⟨_, by simp, hab⟩
+    · obtain ⟨a, ha1, ha2⟩ := ih hb'; exact ⟨a, by simp [ha1], ha2⟩
+
+/-- every successfully resolved event list is well-formed (indices are positions of the state list) -/
+theorem resolveEvents_wf (m : ModelDef) (evs : List REvent) (hn : 0 < m.states.length)
+    (h : resolveEvents m = .ok evs) : WF m.states.length evs := by
+  have hall := mapM_ok (resolveEvent m) m.events evs h
+  intro ev hev tr htr
+  obtain ⟨e, _, he⟩ : ∃ e, e ∈ m.events ∧ resolveEvent m e = .ok ev := forall2_mem_right hall hev
+  unfold resolveEvent at he
+  cases hr : e.rate with
+  | none => simp [hr] at he
+  | some r =>
+    simp only [hr] at he
+    cases hm : e.transitions.mapM (resolveTrans m) with
+    | error x => simp [hm, bind, Except.bind] at he
+    | ok trs =>
+      simp [hm, bind, Except.bind, pure, Except.pure] at he
+      subst he
+      have hall2 := mapM_ok (resolveTrans m) e.transitions trs hm
+      simp only at htr
+      obtain ⟨t, _, ht⟩ := forall2_mem_right hall2 htr
+      exact resolveTrans_wf m _ _ hn ht
+
+/-- every successfully resolved explicit term sits at a position of the state list -/
+theorem resolveOdes_lt (m : ModelDef) (odes : List (Nat × Expr)) (h : resolveOdes m = .ok odes) :
+    ∀ o ∈ odes, o.1 < m.states.length := by
+  have hall := mapM_ok _ m.odes odes h
+  intro o ho
+  obtain ⟨t, _, hab⟩ := forall2_mem_right hall ho
+  cases hs : stateIndex m t.origin with
+  | error e => simp [hs, bind, Except.bind] at hab
+  | ok i =>
+    have hi : i < m.states.length := by
+      cases horig : t.origin with
+      | none => simp [stateIndex, horig] at hs
+      | some s => rw [horig] at hs; exact ((stateIndex_ok m s i).mp hs).1
+    cases heq : t.equation with
+    | none => simp [hs, heq, bind, Except.bind] at hab
+    | some e =>
+      simp [hs, heq, bind, Except.bind, pure, Except.pure] at hab
+      subst hab; exact hi
+
+/-- **Top-level statement about `assemble`** (what the driver runs and the harness compares with pygom):
+whenever a definition assembles, there are resolved events and explicit terms — the definition's own,
+with names replaced by positions — such that every component of the reported ODE is
+`Σ rate·net + explicit terms`, the reported rates are the events' rates, the reported state-change
+columns are the events' net magnitudes, and ODE = V·a + pure. -/
+theorem assemble_spec (I : FnInterp K) (ρ : String → K) (m : ModelDef) (a : Assembled)
+    (hn : 0 < m.states.length) (h : assemble m = .ok a) :
+    ∃ evs odes, resolveEvents m = .ok evs ∧ resolveOdes m = .ok odes ∧
+      a.rates = evs.map (·.rate) ∧
+      (∀ k, comp I ρ a.ode k
+          = (evs.map (fun ev => Expr.eval I ρ ev.rate * net I ρ ev k)).sum + odeTerms I ρ odes k) ∧
+      (∀ k, comp I ρ a.ode k
+          = ((a.vmatCols.zip a.rates).map (fun ca => comp I ρ ca.1 k * Expr.eval I ρ ca.2)).sum
+            + comp I ρ a.pureOde k) := by
+  unfold assemble at h
+  cases he : resolveEvents m with
+  | error e => simp [he, bind, Except.bind] at h
+  | ok evs =>
+    cases ho : resolveOdes m with
+    | error e => simp [he, ho, bind, Except.bind] at h
+    | ok odes =>
+      simp [he, ho, bind, Except.bind, pure, Except.pure] at h
+      subst h
+      have hwf := resolveEvents_wf m evs hn he
+      have hlt := resolveOdes_lt m odes ho
+      exact ⟨evs, odes, rfl, rfl, rfl, fun k => ode_entry I ρ _ evs odes k hwf hlt,
+             fun k => ode_eq_vmat_mul_rates I ρ _ evs odes k hwf hlt⟩
+
 /-- non-vacuity: a concrete two-event SIR model satisfies the hypotheses and assembles -/
 example : WF 3 [⟨.mul (.mul (.var "beta") (.var "S")) (.var "I"), [⟨.T, 0, 1, .num 1⟩]⟩,
                 ⟨.mul (.var "gamma") (.var "I"), [⟨.T, 1, 2, .num 1⟩]⟩] := by
